@@ -1151,6 +1151,38 @@ impl State {
                 }
                 sums.join(",")
             }
+            ["deca", h] => match unhex(h) {
+                Some(b) => {
+                    let mut c = Cursor::new(&b);
+                    match Avp::decode_from(&mut c, self.dict.clone()) {
+                        Ok(a) => {
+                            let mut s = String::from("ok ");
+                            dump_avp(&a, &mut s);
+                            s.push_str(&format!(" pos={}", c.position()));
+                            s
+                        }
+                        Err(_) => "err".into(),
+                    }
+                }
+                None => "bad-op".into(),
+            },
+            ["decg", len, h] => match (len.parse::<usize>().ok(), unhex(h)) {
+                (Some(len), Some(b)) => {
+                    let mut c = Cursor::new(&b);
+                    match Grouped::decode_from(&mut c, len, self.dict.clone()) {
+                        Ok(g) => {
+                            let mut s = String::from("ok [");
+                            for a in g.avps() {
+                                dump_avp(a, &mut s);
+                            }
+                            s.push_str(&format!("] pos={}", c.position()));
+                            s
+                        }
+                        Err(_) => "err".into(),
+                    }
+                }
+                _ => "bad-op".into(),
+            },
             ["decq", h] => match unhex(h) {
                 Some(b) => self.decode_line(&b).split(' ').next().unwrap().to_string(),
                 None => "bad-op".into(),
